@@ -1,5 +1,6 @@
 import SSV.Proofs.RelayLifeInv1
 import SSV.Proofs.RelayLifeInv3
+import SSV.Proofs.RelayLifeInv4
 /-
 C12: the property-level consequences of the invariants, for an arbitrary configuration of the model.
 `SSV/Props/C12.lean` instantiates them with the configurations regenerated from the four relay files.
@@ -88,6 +89,31 @@ theorem missing_key_creates_fresh {s s' : State} {c : Nat} (hr : s.rpc = .hold c
   simp [step, hr, ht] at hs
   subst hs
   simp
+
+
+theorem inv4_reachable {s : State} (h : Reachable cfg s) : Inv4 cfg s := by
+  induction h with
+  | init => exact inv4_initial cfg
+  | step e hr hs ih => exact inv4_step cfg _ _ e (inv1_reachable cfg hr) (inv3a_reachable cfg hr) (inv3d_reachable cfg hr) ih hs
+
+/-- when all goroutines of a session have returned its NAT socket is closed (if every early return that owns the
+socket and the uplink goroutine close it, as `cfg` says the source does) -/
+theorem socket_released (hc : cfg.closesAll = true) (hu : cfg.uplinkCloses = true) {s : State} (h : Reachable cfg s)
+    {i : Nat} (hi : i < s.n) (hf : (s.ent i).finished = true) : (s.ent i).sock = false := by
+  have I := inv4_reachable cfg h
+  simp only [Entry.finished, Bool.and_eq_true, Bool.or_eq_true, beq_iff_eq] at hf
+  obtain ⟨hp, hup⟩ := hf
+  rcases hup with hup | hup
+  · cases hcl : (s.ent i).clean with
+    | true => exact absurd hup (I.u6 i hi hcl (by rw [hp]; simp [IPc.idx]))
+    | false => exact I.s5 hc i hi hcl (by rw [hp]; simp [IPc.idx])
+  · exact I.s4 hu i hi hup
+
+/-- the downlink only ever reads from an open socket: nobody closes it while the downlink loop runs -/
+theorem downlink_socket_open {s : State} (h : Reachable cfg s) {i : Nat} (hi : i < s.n)
+    (hp : (s.ent i).ipc = .dRead ∨ (s.ent i).ipc = .dProc) : (s.ent i).sock = true := by
+  have I := inv4_reachable cfg h
+  rcases hp with hp | hp <;> exact I.s2 i hi (by rw [hp]; simp [IPc.idx]) (by rw [hp]; simp [IPc.idx])
 
 /-- shape of a state in which Stop waits and only the NAT timer (or the environment) can make anything move -/
 def stuckOnTimer (s : State) : Prop :=
